@@ -15,6 +15,8 @@ namespace sim {
 struct BrokerCfg {
     Caps caps;                              // announced in every CONNACK
     std::optional<uint32_t> session_expiry; // announced if set
+    // Receive Maximum announced by the n-th accepted connection (0 = announce none); beyond the end: caps.receive_maximum
+    std::vector<int> receive_maximum_script;
     bool keep_sessions = true;
     int lose_session_pct = 0;               // chance that a reconnect finds the session gone
     vt ack_delay_min = 0, ack_delay_max = 0;
@@ -92,6 +94,7 @@ public:
     BConn* state(const ConnPtr& c) { return static_cast<BConn*>(c->broker_state.get()); }
     bool quiet() const;                                // no scheduled output pending
     int pending_acks = 0;
+    int accepted_connections = 0;
 
 private:
     World& w_;
